@@ -891,7 +891,8 @@ def _cov_fn(kind):
 
 class _NPInv:
     """stands in for the `np` global of a kernel-scheme module during one call: records the argument of np.linalg.inv; for a
-    proxy matrix it returns a matrix M of fresh reals under the contract C @ M = I = M @ C (what an inverse is)"""
+    proxy matrix it returns a matrix of fresh reals - "inv(argument)", opaque: the obligations only say WHICH matrix is inverted and
+    that the scheme returns coefficient * inv(that matrix); no property of the inverse itself (definiteness) is derived"""
 
     def __init__(self, orig, log):
         self._orig, self._log = orig, log
@@ -913,12 +914,6 @@ class _NPInv:
         for i in range(n):
             for j in range(n):
                 M[i, j] = V.SymReal(ctx.fresh_real("inv"))
-        P, Q = a @ M, M @ a
-        for i in range(n):
-            for j in range(n):
-                d = 1 if i == j else 0
-                ctx.assume(V.to_real_term(P[i, j]) == d)
-                ctx.assume(V.to_real_term(Q[i, j]) == d)
         self._log.append((a, M))
         return M
 
